@@ -736,3 +736,53 @@ func sConfigClone(c *Ctx, rule string) {
 		}
 	}
 }
+
+
+// sortSupportSound: Len and Swap of a sort.Interface implementation are the
+// textbook ones – a Less verified by an ordering oracle says nothing about the
+// result of sort.Sort when Swap does not exchange exactly elements i and j or
+// Len is not the slice's length.
+func sortSupportSound(c *Ctx, rule, typ string) {
+	if fn := c.Fn(rule, "("+typ+").Len"); fn != nil {
+		ok := false
+		d := ""
+		for _, ret := range engine.ReturnsOf(fn) {
+			d = c.P.D(engine.ReturnValues(ret)[0])
+			ok = d == "len(recv)"
+		}
+		c.Check(rule, typ+".Len", c.P.Pos(fn.Pos()), "Len is the slice's length (sort.Sort orders all of it)", ok, "returns "+d, 1)
+	}
+	if fn := c.Fn(rule, "("+typ+").Swap"); fn != nil {
+		var stores []*ssa.Store
+		firstStore := -1
+		idx := map[ssa.Instruction]int{}
+		n := 0
+		engine.EachInstr(fn, func(in ssa.Instruction) {
+			idx[in] = n
+			if st, ok := in.(*ssa.Store); ok {
+				if firstStore < 0 {
+					firstStore = n
+				}
+				stores = append(stores, st)
+			}
+			n++
+		})
+		ok := len(stores) == 2 && len(fn.Blocks) == 1
+		found := fmt.Sprintf("%d stores", len(stores))
+		if ok {
+			a0, v0 := c.P.D(stores[0].Addr), c.P.D(stores[0].Val)
+			a1, v1 := c.P.D(stores[1].Addr), c.P.D(stores[1].Val)
+			found = a0 + " = " + v0 + "; " + a1 + " = " + v1
+			ok = ((a0 == "recv[p1]" && a1 == "recv[p2]") || (a0 == "recv[p2]" && a1 == "recv[p1]")) && v0 == a1 && v1 == a0
+			// both old values are loaded before the first store
+			for _, st := range stores {
+				ld, isLoad := st.Val.(*ssa.UnOp)
+				if !isLoad || idx[ld] > firstStore {
+					ok = false
+					found += " (a value is read after the first write)"
+				}
+			}
+		}
+		c.Check(rule, typ+".Swap", c.P.Pos(fn.Pos()), "Swap exchanges exactly elements i and j (both old values read before either is overwritten)", ok, found, 1)
+	}
+}
